@@ -41,7 +41,7 @@ func isCallNamed(in ssa.Instruction, names ...string) bool {
 }
 
 func rulePipelineOrdering(e *Engine, r *Reporter) {
-	r.Rule("message-accounting", "every message is accounted for: Core.send runs MsgFunc (the in-flight increment on cyclical edges) before listener.Send and calls msg.Done() when Send fails; ProcessSender's workers call msg.Done() after each message and in a deferred function when processing panics; a message received but not handed to a worker is Done() on the cancellation path", 5)
+	r.Rule("message-accounting", "every message is accounted for: Core.send runs MsgFunc (the in-flight increment on cyclical edges) before listener.Send and calls msg.Done() when Send fails; ProcessSender's workers call msg.Done() after each message and in a deferred function when processing panics; a message received but not handed to a worker is Done() on the cancellation path", 3)
 	send := e.Func(workerPkg, "Core.send")
 	var lsend ssa.Instruction
 	eachInstr(send, false, func(in ssa.Instruction) {
@@ -84,7 +84,15 @@ func rulePipelineOrdering(e *Engine, r *Reporter) {
 	ps := e.Func(workerPkg, "Core.ProcessSender")
 	// worker closures: those that range over the input channel
 	nWorkers := 0
-	for _, cl := range ps.AnonFuncs {
+	// the per-processor worker: a closure of ProcessSender, or a same-package function it starts (closure moved into a method)
+	workers := append([]*ssa.Function{}, ps.AnonFuncs...)
+	for _, g := range sameePackageRegion(ps, 1) {
+		if g != ps {
+			workers = append(workers, g)
+			workers = append(workers, g.AnonFuncs...)
+		}
+	}
+	for _, cl := range workers {
 		var recv ssa.Instruction
 		eachInstr(cl, false, func(in ssa.Instruction) {
 			if u, ok := in.(*ssa.UnOp); ok && u.Op.String() == "<-" {
@@ -223,7 +231,7 @@ func rulePipelineOrdering(e *Engine, r *Reporter) {
 			okOrder = false
 		}
 	}
-	r.Check(okOrder && len(cleanups) >= 2, fname(ex)+" | quiescence -> Cleanup -> Wake", e.instrPos(waitAll), "listeners closed after quiescence, successor woken after the close", "the teardown order is broken (listeners closed before quiescence, or the successor woken before this member closed its listeners)")
+	r.Check(okOrder && len(cleanups) >= 1 && len(wakes) >= 1, fname(ex)+" | quiescence -> Cleanup -> Wake", e.instrPos(waitAll), "listeners closed after quiescence, successor woken after the close", "the teardown order is broken (listeners closed before quiescence, or the successor woken before this member closed its listeners)")
 	// every exit after WaitForAllReady passes a Wake
 	missWake := false
 	for _, rs := range returnSites(ex) {
